@@ -89,7 +89,7 @@ var synClock int64 = 1100000000
 var c16kinds = map[string]bool{"check": true, "tmp-residue": true, "stale-file": true, "missing-file": true, "op-should-fail": true, "op-should-succeed": true}
 
 var (
-	users = []string{"a", "b"}
+	users = []string{"a", "a.b"} // prefix-related on purpose: a lookup, removal or listing by name prefix/pattern confuses them
 	pws   []string
 	sets  []uint
 	ev    *verifev.Run
@@ -318,7 +318,7 @@ func step(dir string, n *node, o op) *node {
 func observe(d *store.Dir, m model, fail func(kind, format string, a ...any)) string {
 	var sb strings.Builder
 	// "c" never exists; "A"/"B" are case variants of existing names (a store must not fold case)
-	all := append(append([]string{}, users...), "c", "A", "B", "a ", "a.user")
+	all := append(append([]string{}, users...), "c", "A", "B", "a ", "a.user", "a.", "a.b.c", "b")
 	for _, u := range all {
 		r, present := m[u]
 		ex, adm, err := d.Exists(u)
